@@ -2,7 +2,7 @@
 templates (literal segments and slots), line-ending regimes, globs and repeated entries."""
 import datetime as dt
 
-from ref import pattern as rp, pep440, configsyn
+from ref import pattern as rp, pep440, configsyn, legacy as rl
 from gen import patterns as gp
 
 SAFE_AFTER = [" ", '"', "'", ",", ";", "<", ")", " #", "\t"]
@@ -60,6 +60,9 @@ def _alt_spelling(rng, part):
 def gen_search_patterns(rng, tree, vpattern, pep_ok, count, first_marker, allow_bare, ini):
     """-> list of dicts {raw, prefix, region, suffix}"""
     names = [n for n in rp.parts_of(tree) if n not in ("TAG", "PYTAG", "NUM")]
+    is_legacy = rl.is_legacy(vpattern)
+    if is_legacy:
+        names = ["{%s}" % n[2:] for n in names if rp.PARTS[n][0] not in ("tag",)]
     out = []
     marker_no = first_marker
     for _ in range(count):
@@ -68,6 +71,8 @@ def gen_search_patterns(rng, tree, vpattern, pep_ok, count, first_marker, allow_
         shape = rng.choice(["A", "A", "B", "B", "C", "C", "D", "E", "E", "G"])
         if shape == "C" and not pep_ok:
             shape = "A"
+        if is_legacy and shape == "G":
+            shape = "B"
         if shape == "A":
             prefix, region, suffix = m + ": ", "{version}", ""
         elif shape == "B":
@@ -88,7 +93,7 @@ def gen_search_patterns(rng, tree, vpattern, pep_ok, count, first_marker, allow_
             else:
                 p1 = _alt_spelling(rng, rng.choice(names))
                 region = p1
-                if len(names) > 1 and rng.random() < 0.5:
+                if len(names) > 1 and rng.random() < 0.5 and not is_legacy:
                     cand = [n for n in names if rp.PARTS[n][0] != rp.PARTS[p1][0]]
                     if cand:
                         p2 = _alt_spelling(rng, rng.choice(cand))
@@ -176,10 +181,14 @@ def pep_friendly(vpattern):
 
 
 def gen_project(rng, mode="plain", syntaxes=None, allow_mixed=True, max_files=4, family=None, vcs="maybe",
-                allow_odd_paths=True, allow_glob=True, pep_any=False, force_pep=False, zero_bid=False):
+                allow_odd_paths=True, allow_glob=True, pep_any=False, force_pep=False, zero_bid=False, legacy=False):
     while True:
-        pat = gp.gen_pattern(rng, family)
-        tree = rp.tokenize(pat["pattern"])
+        if legacy:
+            pat = {"pattern": rng.choice(gp.LEGACY_PATTERNS), "family": "legacy", "unit": None}
+            tree = rl.tokenize(pat["pattern"])
+        else:
+            pat = gp.gen_pattern(rng, family)
+            tree = rp.tokenize(pat["pattern"])
         if rp.parts_of(tree):
             break
     vpattern = pat["pattern"]
@@ -193,6 +202,10 @@ def gen_project(rng, mode="plain", syntaxes=None, allow_mixed=True, max_files=4,
         probe["tag"] = "beta"
     pep_ok = pep440.is_pep440(vtext) and pep440.is_pep440(rp.render(tree, probe)) and vpattern[:1] in "vYG0MQ" \
         and not vpattern.startswith("ver") and (pep_any or pep_friendly(vpattern))
+    if legacy:
+        # {pep440_version} is only defined for these legacy version patterns (README, legacy section)
+        pep_ok = vpattern in ("{pycalver}", "{semver}", "v{year}{month}{build}{release}", "{year}{month}{build}{release}",
+                              "v{year}{build}{release}", "{year}{build}{release}")
     syntax = rng.choice(syntaxes or ["bumpver.toml", "bumpver.toml", ".bumpver.toml", "pyproject.toml", "setup.cfg",
                                      "setup.cfg"])
     ini = not configsyn.is_toml(syntax)
